@@ -65,6 +65,30 @@ TABLES = {
 }
 
 
+class StepLimit:
+    """context manager: raises TimeoutError inside the block after `limit` trace events (a converted program
+    that loops for ever under a changed converter must not hang the check)"""
+
+    def __init__(self, limit=300000):
+        self.limit = limit
+        self.n = 0
+
+    def _tracer(self, frame, event, arg):
+        self.n += 1
+        if self.n > self.limit:
+            raise TimeoutError("step limit exceeded")
+        return self._tracer
+
+    def __enter__(self):
+        self.old = sys.gettrace()
+        sys.settrace(self._tracer)
+        return self
+
+    def __exit__(self, *a):
+        sys.settrace(self.old)
+        return False
+
+
 class Check:
     def __init__(self, pid, argv=None):
         self.pid = pid
